@@ -19,7 +19,7 @@ func init() {
 	Registry["C08"] = c08
 	Metas["C08"] = Meta{Level: "other", NeedCG: true,
 		Technique: "static analysis: goroutine-context classification (recover boundary) over the call graph, type-driven taint of peer-decoded integers to index/slice/allocation sinks with interprocedural parameter propagation and bound-guard recognition, decode-limit table, nil-ness and representation-invariant obligations at the queue boundary",
-		Explain:   "Static analysis of the path from peer bytes to the consensus, gossip and fast-sync goroutines. Goroutine roots are classified by whether they defer a recover; obligations about crashes are placed on the unrecovered ones (receiveRoutine, gossip routines, poolRoutine, broadcastTxRoutine ...). Decided: (R1) the recover boundary — recvRoutine/sendRoutine defer _recover first, _recover -> stopForError -> onError, every Reactor.Receive is entered only below it; (R2) every network decode has a positive constant (or constant-bounded) size limit; limit 0 only in listed decoders of local records; (R3) type-driven taint: an integer field of a wire-registered message type that reaches an index, slice bound or allocation size on an unrecovered goroutine — through locals, arithmetic, function parameters and object paths — is edge-dominated by a lower and an upper bound; (R4) no explicit panic / no-return helper on such goroutines is triggered by a condition over peer-decoded values (reviewed sanity panics listed per function with a site count); (R5) pointer fields of queued consensus messages are dereferenced under the recover before the send, fast-sync blocks are dereferenced before being filed, Block.Hash and the commit accessors tolerate nil; (R6) peer-decoded BitArrays pass IsConsistent before being stored into PeerState; (R7) addRound's precondition holds at each call and a peer can open at most two catch-up rounds; (R8) in recovered code a mutex held across peer-data handling is released by defer (a recovered panic must not leave it locked); (R9) the fast-sync requester's block/peer id are read only under its mutex, so poolRoutine's sanity checks cannot be tripped by a peer hanging up. NOT decided: liveness ('nor stops making progress') beyond R7/R8, that rejected messages leave RoundState bit-for-bit unchanged, panics inside third-party/stdlib calls, nil-ness of interface-typed fields (Signature: VerifyBytes/Equals use comma-ok assertions, read but not checked), resource exhaustion below the decode limits.",
+		Explain:   "Static analysis of the path from peer bytes to the consensus, gossip and fast-sync goroutines. Goroutine roots are classified by whether they defer a recover; obligations about crashes are placed on the unrecovered ones (receiveRoutine, gossip routines, poolRoutine, broadcastTxRoutine ...). Decided: (R1) the recover boundary — recvRoutine/sendRoutine defer _recover first, _recover -> stopForError -> onError, every Reactor.Receive is entered only below it; (R2) every network decode has a positive constant (or constant-bounded) size limit; limit 0 only in listed decoders of local records; (R3) type-driven taint: an integer field of a wire-registered message type that reaches an index, slice bound or allocation size on an unrecovered goroutine — through locals, arithmetic, function parameters and object paths — is edge-dominated by a lower and an upper bound; (R4) no explicit panic / no-return helper on such goroutines is triggered by a condition over peer-decoded values (reviewed sanity panics listed per function with a site count); (R5) pointer fields of queued consensus messages are dereferenced under the recover before the send, fast-sync blocks are dereferenced before being filed, Block.Hash and the commit accessors tolerate nil; (R6) peer-decoded BitArrays pass IsConsistent before being stored into PeerState; (R7) addRound's precondition holds at each call and a peer can open at most two catch-up rounds; (R8) in recovered code a mutex held across peer-data handling is released by defer (a recovered panic must not leave it locked); (R9) the fast-sync requester's block/peer id are read only under its mutex, so poolRoutine's sanity checks cannot be tripped by a peer hanging up. (R10) duplicate block responses are dropped before the unbuffered notification; (R11) BitArray operations reachable from unrecovered goroutines tolerate a nil operand; (R12) methods that panic on a nil receiver are not called on nil-able RoundState fields without a nil test. NOT decided: liveness ('nor stops making progress') beyond R7/R8, that rejected messages leave RoundState bit-for-bit unchanged, panics inside third-party/stdlib calls, nil-ness of interface-typed fields (Signature: VerifyBytes/Equals use comma-ok assertions, read but not checked), resource exhaustion below the decode limits.",
 		Assume:    []string{"go-wire honours its limit argument (C18-R2)", "fewer than 1/3 of the voting power is Byzantine (TwoThirdsMajority results and the `+2/3 ... invalid block` panics)", "records read back from the node's own databases and WAL are well-formed (C06/C07 cover their writers)"},
 	}
 }
